@@ -41,6 +41,10 @@ def scenarios(tier):
     # and dies for another reason is found by the periodic check between two polls of the kill in flight
     out.append(Scenario('hist', n0=2, pat='first-stubborn', tier=tier, tick=0.13))
     out.append(Scenario('sweep', n0=1, pat='obedient', tier=tier, nodet=True))
+    # the watched worker is the daemon's ONLY child (no bystander watcher): when it has died, waitpid(-1) has no child left
+    # to wait for (ECHILD) - a different path through the periodic sweep
+    out.append(Scenario('sweep', n0=1, pat='obedient', tier=tier, nodet=True, solo=True))
+    out.append(Scenario('hist', n0=1, pat='obedient', tier=tier, solo=True))
     return out
 
 
@@ -222,9 +226,10 @@ def run(scn, ch):
     tier = scn.tier
 
     def make_world(ch):
-        world = World(ch, [WSpec('a', numprocesses=scn.n0, graceful_timeout=G, behaviours=pattern(scn.pat)),
-                           WSpec('z', numprocesses=1, graceful_timeout=G)],
-                      check_delay=scn.p.get('tick', 1.0))
+        specs = [WSpec('a', numprocesses=scn.n0, graceful_timeout=G, behaviours=pattern(scn.pat))]
+        if not scn.p.get('solo'):
+            specs.append(WSpec('z', numprocesses=1, graceful_timeout=G))
+        world = World(ch, specs, check_delay=scn.p.get('tick', 1.0))
         world.deaths_only = ('a',)
         _world_with_death_ctx(world)
         return world
